@@ -101,7 +101,35 @@ pub fn dump_program(name: &str, bc: &Bytecode) -> String {
     for t in &bc.tuples {
         s.push_str(&format!(" {}", t.fields.len()));
     }
-    s.push_str(&format!(") (nbuiltins {}) (ntypes {}))", bc.builtins.len(), bc.types.len()));
+    s.push_str(&format!(") (nbuiltins {}) (ntypes {})", bc.builtins.len(), bc.types.len()));
+    // table cross-references (for the "every index is in range" part of C07): per type the type
+    // ids and tuple ids it mentions, per tuple its field type ids, per builtin its param/result
+    s.push_str(" (tyrefs");
+    for t in &bc.types {
+        use quiver_core::types::Type;
+        let (tys, tups): (Vec<usize>, Vec<usize>) = match t {
+            Type::Integer | Type::Binary | Type::Reference | Type::Resource(_) | Type::Variable(_) | Type::Cycle(_) => (vec![], vec![]),
+            Type::Tuple(id) => (vec![], vec![*id]),
+            Type::Partial { fields, .. } => (fields.iter().map(|(_, t)| *t).collect(), vec![]),
+            Type::Callable { parameter, result, receive } => (vec![*parameter, *result, *receive], vec![]),
+            Type::Union(v) => (v.clone(), vec![]),
+            Type::Process { send, receive } => (send.iter().chain(receive.iter()).copied().collect(), vec![]),
+        };
+        s.push_str(&format!(
+            " (ty ({}) ({}))",
+            tys.iter().map(|x| x.to_string()).collect::<Vec<_>>().join(" "),
+            tups.iter().map(|x| x.to_string()).collect::<Vec<_>>().join(" ")
+        ));
+    }
+    s.push_str(") (tuprefs");
+    for t in &bc.tuples {
+        s.push_str(&format!(" ({})", t.fields.iter().map(|(_, x)| x.to_string()).collect::<Vec<_>>().join(" ")));
+    }
+    s.push_str(") (birefs");
+    for b in &bc.builtins {
+        s.push_str(&format!(" ({} {})", b.param_type, b.result_type));
+    }
+    s.push_str("))");
     s
 }
 
